@@ -49,6 +49,10 @@ pub struct Case18 {
     pub status: u32,
     pub headers: Vec<(String, String)>,
     pub body: Body,
+    /// The target the watchdog is configured for while the transforms run (index into the five
+    /// targets): the result must not depend on it.
+    #[serde(default)]
+    pub target: u8,
 }
 
 #[derive(Clone, Copy, PartialEq, Eq, Debug)]
@@ -221,8 +225,9 @@ impl Property for C18 {
             prop_oneof![6 => Just(200u32), 1 => Just(404u32), 1 => Just(500u32), 1 => Just(0u32), 1 => Just(201u32), 1 => any::<u32>()],
             prop::collection::vec(("[A-Za-z-]{1,12}", "[ -~]{0,20}"), 0..4),
             body,
+            0u8..5,
         )
-            .prop_map(|(endpoint, status, headers, body)| Case18 { endpoint, status, headers, body })
+            .prop_map(|(endpoint, status, headers, body, target)| Case18 { target, endpoint, status, headers, body })
             .boxed()
     }
     fn cases(&self, tier: Tier) -> u32 {
@@ -235,16 +240,26 @@ impl Property for C18 {
         Some(("transform", fuzz_transform))
     }
     fn rule(&self) -> String {
-        "Every explorer endpoint's transform (11 endpoint configurations via the hook, plus the 10 exported transform_* query functions) x status (200, 201, 404, 500, 0, random) x arbitrary headers x bodies: grammar-generated JSON of the explorer's real shape with the height member as integer (0, small, realistic, u64::MAX, i64::MAX+1) / negative / float / 2^64*10 / string / null / bool / nested / missing, unrelated members at every level, four whitespace styles, member order, truncation; plain-number bodies incl. '+12', ' 12', '12\\n', '012', '1e3', ''; random bytes (invalid UTF-8); valid UTF-8 of up to ~800 bytes mixing ASCII with 2-, 3- and 4-byte characters, raw or as a string member of a well-shaped document, optionally truncated at any byte. Oracle: no trap; no headers; same status; body in {empty, {\"height\":N}, {\"height\":null}} byte-exact; N only if an independent path lookup on the parsed body finds that non-negative integer, and then it must be reported; for status 200 the result is identical for variants of the same document that differ only in headers, whitespace, member order or unrelated members. Non-trivial: a syntactically valid body of the endpoint's shape with >= 1 perturbation; distinct = (endpoint, body) hashes.".into()
+        "Every explorer endpoint's transform (11 endpoint configurations via the hook, plus the 10 exported transform_* query functions, each executed while the watchdog is configured for one of its five targets: the result must not depend on the stored configuration) x status (200, 201, 404, 500, 0, random) x arbitrary headers x bodies: grammar-generated JSON of the explorer's real shape with the height member as integer (0, small, realistic, u64::MAX, i64::MAX+1) / negative / float / 2^64*10 / string / null / bool / nested / missing, unrelated members at every level, four whitespace styles, member order, truncation; plain-number bodies incl. '+12', ' 12', '12\\n', '012', '1e3', ''; random bytes (invalid UTF-8); valid UTF-8 of up to ~800 bytes mixing ASCII with 2-, 3- and 4-byte characters, raw or as a string member of a well-shaped document, optionally truncated at any byte. Oracle: no trap; no headers; same status; body in {empty, {\"height\":N}, {\"height\":null}} byte-exact; N only if an independent path lookup on the parsed body finds that non-negative integer, and then it must be reported; for status 200 the result is identical for variants of the same document that differ only in headers, whitespace, member order or unrelated members. Non-trivial: a syntactically valid body of the endpoint's shape with >= 1 perturbation; distinct = (endpoint, body) hashes.".into()
     }
     fn assumptions(&self) -> Vec<String> {
         vec!["for plain-number endpoints only bodies consisting solely of ASCII digits have a height every reading agrees on; other text may map to empty or to the canonical object".into()]
     }
     fn required_classes(&self, _tier: Tier) -> Vec<&'static str> {
-        vec!["valid_shape_perturbed", "height_extracted", "height_null", "empty_body_result", "non_200", "invalid_utf8_or_json", "metamorphic_pair_equal", "unicode_body_longer_than_100_bytes"]
+        vec!["valid_shape_perturbed", "height_extracted", "height_null", "empty_body_result", "non_200", "invalid_utf8_or_json", "metamorphic_pair_equal", "unicode_body_longer_than_100_bytes", "configured_target_0", "configured_target_1", "configured_target_2", "configured_target_3", "configured_target_4"]
     }
     fn run(&self, case: &Case18) -> Outcome {
         let mut out = Outcome::default();
+        let targets = wd::all_canisters();
+        let target = targets[case.target as usize % targets.len()];
+        wd::set_target(target);
+        out.class(match case.target as usize % targets.len() {
+            0 => "configured_target_0",
+            1 => "configured_target_1",
+            2 => "configured_target_2",
+            3 => "configured_target_3",
+            _ => "configured_target_4",
+        });
         let names = wd::endpoint_names();
         let name = names[case.endpoint as usize % names.len()];
         let kind = kind_of(name);
@@ -408,6 +423,8 @@ pub fn fuzz_transform(data: &[u8]) -> Outcome {
     }
     let names = wd::endpoint_names();
     let name = names[data[0] as usize % names.len()];
+    let targets = wd::all_canisters();
+    wd::set_target(targets[(data[0] as usize / names.len()) % targets.len()]);
     let kind = kind_of(name);
     let status: u32 = match data[1] % 8 {
         0..=4 => 200,
